@@ -10,6 +10,7 @@ pub mod c10;
 pub mod c11;
 pub mod c12;
 pub mod c13;
+pub mod c14;
 
 use engine::Space;
 
@@ -27,6 +28,7 @@ pub fn build(id: &str, tier: &str, _seed: u64) -> Option<Box<dyn Space + Sync + 
         "C11" => Box::new(c11::C11::new(tier)),
         "C12" => Box::new(c12::C12::new(tier)),
         "C13" => Box::new(c13::C13::new(tier)),
+        "C14" => Box::new(c14::C14::new(tier)),
         _ => return None,
     })
 }
